@@ -47,6 +47,12 @@ pub struct CEntry {
     pub details: Vec<Detail>,
     /// value date written as DtTm
     pub datetime: bool,
+    /// time-of-day and zone offset used when dates are written as DtTm
+    #[serde(default)]
+    pub time: String,
+    /// booking date written as DtTm too
+    #[serde(default)]
+    pub booking_datetime: bool,
 }
 
 #[derive(Clone, Debug, PartialEq, Eq, Serialize, Deserialize, Hash)]
@@ -113,10 +119,15 @@ pub fn render_xml(sc: &Sc, st: &Stmt) -> String {
     for e in entries {
         let ind = if e.credit { "CRDT" } else { "DBIT" };
         s.push_str(&format!("<Ntry>\n<Amt Ccy=\"{}\">{}</Amt><CdtDbtInd>{}</CdtDbtInd><Sts>BOOK</Sts>\n", c, e.amount, ind));
-        s.push_str(&format!("<BookgDt><Dt>{}</Dt></BookgDt>\n", e.booking.iso()));
+        let time = if e.time.is_empty() { "T10:20:30+01:00" } else { e.time.as_str() };
+        if e.booking_datetime {
+            s.push_str(&format!("<BookgDt><DtTm>{}{}</DtTm></BookgDt>\n", e.booking.iso(), time));
+        } else {
+            s.push_str(&format!("<BookgDt><Dt>{}</Dt></BookgDt>\n", e.booking.iso()));
+        }
         if let Some(v) = e.value {
             if e.datetime {
-                s.push_str(&format!("<ValDt><DtTm>{}T10:20:30+01:00</DtTm></ValDt>\n", v.iso()));
+                s.push_str(&format!("<ValDt><DtTm>{}{}</DtTm></ValDt>\n", v.iso(), time));
             } else {
                 s.push_str(&format!("<ValDt><Dt>{}</Dt></ValDt>\n", v.iso()));
             }
@@ -374,7 +385,7 @@ pub fn expected(sc: &Sc, st: &Stmt) -> Result<Vec<CTxn>, &'static str> {
 }
 
 const NAMES: &[&str] = &["Jiro Okane", "OKANE VERSICHERUNGEN", "山田商店", "EURO GROCERY", "Money Bank", "Hanako Steinmann", "Taro & Hanako <GmbH>"];
-const HOSTILE_NAMES: &[&str] = &["Shop ; not a comment", "(1234) looks like a code", "line\nbreak", "  padded  ", "* starred", "two  spaces", "Key: value"];
+const HOSTILE_NAMES: &[&str] = &["Shop ; not a comment", "(1234) looks like a code", "line\nbreak", "carriage\rreturn", "  padded  ", "* starred", "two  spaces", "Key: value"];
 const INFOS: &[&str] = &[
     "Okanecard purchase 01.10.2024 10:20 Migros Card number: 1234",
     "Okane Pay Coffee Shop 040000012",
@@ -458,7 +469,13 @@ pub fn gen_sc(rng: &mut Rng, hostile: bool, multi: bool) -> Sc {
                     None
                 };
                 details.push(Detail {
-                    reference: if rng.chance(4, 5) { Some(format!("20240131/{}/1", serial)) } else { None },
+                    reference: if hostile && rng.chance(1, 6) {
+                        Some(["a)b", "ref (1)", " padded ", "ref;1"][rng.usize(4)].to_string())
+                    } else if rng.chance(4, 5) {
+                        Some(format!("20240131/{}/1", serial))
+                    } else {
+                        None
+                    },
                     amount,
                     charge,
                     creditor: if rng.chance(1, 2) { Some(name(rng)) } else { None },
@@ -488,6 +505,9 @@ pub fn gen_sc(rng: &mut Rng, hostile: bool, multi: bool) -> Sc {
                 info: if rng.chance(1, 3) { format!("entry {}", serial) } else { ["Sammelauftrag", "", "Gutschrift"][rng.usize(3)].to_string() },
                 details,
                 datetime: rng.chance(1, 4),
+                // the local calendar day is what counts, whatever the UTC instant is
+                time: ["T10:20:30+01:00", "T00:30:00+01:00", "T23:30:00-05:00", "T00:00:00+02:00", "T23:59:59Z", "T12:00:00+09:00"][rng.usize(6)].to_string(),
+                booking_datetime: rng.chance(1, 6),
             });
         }
         let st = Stmt { opening, entries };
